@@ -170,34 +170,25 @@ Proof.
   intros c r H. rewrite rm_lf_eq. destruct r as [| c1 r1]; [reflexivity |]. rewrite H. reflexivity.
 Qed.
 
-Lemma seg_ok_cons : forall c s, seg_okb (c :: s) = true -> (c =? 92) = false /\ seg_okb s = true.
-Proof.
-  intros c s H. cbn [seg_okb forallb] in H. apply andb_true_iff in H. destruct H as [H1 H2].
-  apply andb_true_iff in H1. destruct H1 as [H1 _]. apply negb_true_iff in H1. split; assumption.
-Qed.
-
-Lemma rm_crlf_seg : forall s t, seg_okb s = true -> remove_bs_crlf (s ++ t) = s ++ remove_bs_crlf t.
-Proof.
-  induction s as [| c s IH]; intros t H; [reflexivity |].
-  apply seg_ok_cons in H. destruct H as [Hc Hs].
-  cbn [app]. rewrite rm_crlf_cons by exact Hc. rewrite IH by exact Hs. reflexivity.
-Qed.
-
-Lemma rm_lf_seg : forall s t, seg_okb s = true -> remove_bs_lf (s ++ t) = s ++ remove_bs_lf t.
-Proof.
-  induction s as [| c s IH]; intros t H; [reflexivity |].
-  apply seg_ok_cons in H. destruct H as [Hc Hs].
-  cbn [app]. rewrite rm_lf_cons by exact Hc. rewrite IH by exact Hs. reflexivity.
-Qed.
-
 Lemma rm_crlf_marker_crlf : forall t, remove_bs_crlf (92 :: 13 :: 10 :: t) = remove_bs_crlf t.
 Proof. intros t. rewrite rm_crlf_eq. reflexivity. Qed.
 
+Lemma rm_crlf_cons_gen : forall c r, (c =? 92) && (hd 0 r =? 13) = false -> remove_bs_crlf (c :: r) = c :: remove_bs_crlf r.
+Proof.
+  intros c r H. rewrite rm_crlf_eq. destruct r as [| c1 [| c2 r2]]; try reflexivity.
+  cbn [hd] in H. rewrite H. reflexivity.
+Qed.
+
+Lemma rm_lf_cons_gen : forall c r, (c =? 92) && (hd 0 r =? 10) = false -> remove_bs_lf (c :: r) = c :: remove_bs_lf r.
+Proof.
+  intros c r H. rewrite rm_lf_eq. destruct r as [| c1 r1]; [reflexivity |].
+  cbn [hd] in H. rewrite H. reflexivity.
+Qed.
+
 Lemma rm_crlf_marker_lf : forall t, remove_bs_crlf (92 :: 10 :: t) = 92 :: 10 :: remove_bs_crlf t.
 Proof.
-  intros t. rewrite rm_crlf_eq. destruct t as [| c2 r2]; [reflexivity |].
-  change ((92 =? 92) && (10 =? 13) && (c2 =? 10)) with false. cbv iota.
-  rewrite (rm_crlf_cons 10) by reflexivity. reflexivity.
+  intros t. rewrite rm_crlf_cons_gen by reflexivity. f_equal.
+  apply rm_crlf_cons_gen. reflexivity.
 Qed.
 
 Lemma rm_lf_marker : forall t, remove_bs_lf (92 :: 10 :: t) = remove_bs_lf t.
@@ -206,36 +197,91 @@ Proof. intros t. rewrite rm_lf_eq. reflexivity. Qed.
 (* the text after the first pass (back slash CR LF removed) *)
 Definition mid_rest (rest : list (bool * str)) : str :=
   flat_map (fun ms : bool * str => (if fst ms then [] else [92; 10]) ++ snd ms) rest.
+Definition inner_rest (rest : list (bool * str)) : str :=
+  flat_map (fun ms : bool * str => marker (fst ms) ++ snd ms) rest.
+Definition value_rest (rest : list (bool * str)) : str := flat_map (fun ms : bool * str => snd ms) rest.
 
-Lemma pass1_rest : forall rest, forallb (fun ms : bool * str => seg_okb (snd ms)) rest = true ->
-  remove_bs_crlf (flat_map (fun ms : bool * str => marker (fst ms) ++ snd ms) rest) = mid_rest rest.
+Lemma clean_cons : forall c r, cleanb (c :: r) = true ->
+  (c =? 92) && ((hd 0 r =? 10) || (hd 0 r =? 13)) = false /\ cleanb r = true.
 Proof.
-  induction rest as [| [crlf seg] rest IH]; intros H; [reflexivity |].
-  cbn [forallb snd] in H. apply andb_true_iff in H. destruct H as [Hs Hr].
-  cbn [flat_map mid_rest fst snd]. destruct crlf; cbn [marker app].
-  - rewrite rm_crlf_marker_crlf. rewrite rm_crlf_seg by exact Hs. rewrite IH by exact Hr. reflexivity.
-  - rewrite rm_crlf_marker_lf. rewrite rm_crlf_seg by exact Hs. rewrite IH by exact Hr. reflexivity.
+  intros c r H. cbn [cleanb] in H. apply andb_true_iff in H. destruct H as [H1 H2]. split; [| exact H2].
+  apply negb_true_iff in H1. unfold bs_before_nl in H1. destruct r as [| c1 r1]; cbn [hd].
+  - rewrite andb_false_r. reflexivity.
+  - exact H1.
 Qed.
 
-Lemma pass2_rest : forall rest, forallb (fun ms : bool * str => seg_okb (snd ms)) rest = true ->
-  remove_bs_lf (mid_rest rest) = flat_map (fun ms : bool * str => snd ms) rest.
+(* the first character after a prefix f: the same in the text and in the content, or the back slash of a marker *)
+Lemma hd_inner : forall rest f,
+  hd 0 (f ++ inner_rest rest) = hd 0 (f ++ value_rest rest) \/ hd 0 (f ++ inner_rest rest) = 92.
 Proof.
-  induction rest as [| [crlf seg] rest IH]; intros H; [reflexivity |].
-  cbn [forallb snd] in H. apply andb_true_iff in H. destruct H as [Hs Hr].
-  cbn [flat_map mid_rest fst snd]. destruct crlf; cbn [app].
-  - rewrite rm_lf_seg by exact Hs. fold (mid_rest rest). rewrite IH by exact Hr. reflexivity.
-  - rewrite rm_lf_marker. rewrite rm_lf_seg by exact Hs. fold (mid_rest rest). rewrite IH by exact Hr. reflexivity.
+  intros rest f. destruct f as [| c f]; [| left; reflexivity].
+  destruct rest as [| [crlf seg] rest]; [left; reflexivity |].
+  right. cbn [app inner_rest flat_map fst]. destruct crlf; reflexivity.
+Qed.
+
+Lemma hd_mid : forall rest f,
+  hd 0 (f ++ mid_rest rest) = hd 0 (f ++ value_rest rest) \/ hd 0 (f ++ mid_rest rest) = 92.
+Proof.
+  induction rest as [| [crlf seg] rest IH]; intros f; [left; reflexivity |].
+  destruct f as [| c f]; [| left; reflexivity].
+  cbn [app mid_rest value_rest flat_map fst snd]. destruct crlf; cbn [app].
+  - apply IH.
+  - right. reflexivity.
+Qed.
+
+Lemma no_nl_after_bs : forall c h x,
+  (c =? 92) && ((h =? 10) || (h =? 13)) = false -> (x = h \/ x = 92) ->
+  (c =? 92) && (x =? 13) = false /\ (c =? 92) && (x =? 10) = false.
+Proof.
+  intros c h x H [-> | ->].
+  - destruct (c =? 92); [| split; reflexivity]. cbn [andb] in *. apply orb_false_iff in H. tauto.
+  - split; rewrite andb_false_r; reflexivity.
+Qed.
+
+Lemma pass1 : forall rest first, cleanb (first ++ value_rest rest) = true ->
+  remove_bs_crlf (first ++ inner_rest rest) = first ++ mid_rest rest.
+Proof.
+  induction rest as [| [crlf seg] rest IH].
+  - induction first as [| c f IHf]; intros H; [reflexivity |].
+    cbn [app] in *. apply clean_cons in H. destruct H as [Hc Hr].
+    destruct (no_nl_after_bs c _ _ Hc (hd_inner [] f)) as [E _].
+    rewrite rm_crlf_cons_gen by exact E. rewrite IHf by exact Hr. reflexivity.
+  - induction first as [| c f IHf]; intros H.
+    + cbn [app inner_rest mid_rest value_rest flat_map fst snd] in *.
+      destruct crlf; cbn [marker app].
+      * rewrite rm_crlf_marker_crlf. apply IH. exact H.
+      * rewrite rm_crlf_marker_lf. f_equal. f_equal. apply IH. exact H.
+    + cbn [app] in *. apply clean_cons in H. destruct H as [Hc Hr].
+      destruct (no_nl_after_bs c _ _ Hc (hd_inner ((crlf, seg) :: rest) f)) as [E _].
+      rewrite rm_crlf_cons_gen by exact E. rewrite IHf by exact Hr. reflexivity.
+Qed.
+
+Lemma pass2 : forall rest first, cleanb (first ++ value_rest rest) = true ->
+  remove_bs_lf (first ++ mid_rest rest) = first ++ value_rest rest.
+Proof.
+  induction rest as [| [crlf seg] rest IH].
+  - induction first as [| c f IHf]; intros H; [reflexivity |].
+    cbn [app] in *. apply clean_cons in H. destruct H as [Hc Hr].
+    destruct (no_nl_after_bs c _ _ Hc (hd_mid [] f)) as [_ E].
+    rewrite rm_lf_cons_gen by exact E. rewrite IHf by exact Hr. reflexivity.
+  - induction first as [| c f IHf]; intros H.
+    + cbn [app mid_rest value_rest flat_map fst snd] in *.
+      destruct crlf; cbn [app].
+      * apply IH. exact H.
+      * rewrite rm_lf_marker. apply IH. exact H.
+    + cbn [app] in *. apply clean_cons in H. destruct H as [Hc Hr].
+      destruct (no_nl_after_bs c _ _ Hc (hd_mid ((crlf, seg) :: rest) f)) as [_ E].
+      rewrite rm_lf_cons_gen by exact E. rewrite IHf by exact Hr. reflexivity.
 Qed.
 
 (* the parser returns exactly the content of the written string, whatever continuation markers cut it *)
 Theorem unquote_written : forall w, wstr_okb w = true -> unquote (wstr_text w) = wstr_value w.
 Proof.
-  intros [first rest] H. unfold wstr_okb in H. cbn [ws_first ws_rest] in H.
-  apply andb_true_iff in H. destruct H as [Hf Hr].
+  intros [first rest] H. unfold wstr_okb, wstr_value in H. cbn [ws_first ws_rest] in H.
   unfold unquote, wstr_text, wstr_inner, wstr_value, drop_first_last. cbn [ws_first ws_rest tl].
   rewrite removelast_last.
-  rewrite rm_crlf_seg by exact Hf. rewrite pass1_rest by exact Hr.
-  rewrite rm_lf_seg by exact Hf. rewrite pass2_rest by exact Hr. reflexivity.
+  fold (inner_rest rest). fold (value_rest rest) in *.
+  rewrite pass1 by exact H. apply pass2. exact H.
 Qed.
 
 Theorem parse_string_written : forall w, wstr_okb w = true ->
